@@ -103,7 +103,7 @@ structure IteOK (m : MddMgr) (g u v w : Int) (m' : MddMgr) : Prop where
   lvl : min (m.tbl.levelOf g) (min (m.tbl.levelOf u) (m.tbl.levelOf v)) ≤ m'.tbl.levelOf w
   den : ∀ a, MValid m.tbl a →
     denM m'.tbl w a = if denM m.tbl g a then denM m.tbl u a else denM m.tbl v a
-  exact : ∀ ext, RefExact m ext → RefExact m' ext
+  exact : ∀ ext, MRefExact m ext → MRefExact m' ext
 
 def IteSound (rec : Int → Int → Int → MM Int) : Prop :=
   ∀ m g u v, MInv m → m.tbl.Mem g → m.tbl.Mem u → m.tbl.Mem v →
@@ -116,7 +116,7 @@ theorem mIteList_spec (rec : Int → Int → Int → MM Int) (hrec : IteSound re
       gs.length = us.length → us.length = vs.length →
       ∀ ws m', mIteList rec gs us vs m = (.ok ws, m') →
         MInv m' ∧ MExt m.tbl m'.tbl ∧ ws.length = gs.length ∧
-        (∀ ext, RefExact m ext → RefExact m' ext) ∧
+        (∀ ext, MRefExact m ext → MRefExact m' ext) ∧
         ∀ (j : Nat) (g u v : Int), gs[j]? = some g → us[j]? = some u → vs[j]? = some v →
           ∃ w, ws[j]? = some w ∧ m'.tbl.Mem w ∧
             min (m.tbl.levelOf g) (min (m.tbl.levelOf u) (m.tbl.levelOf v)) ≤ m'.tbl.levelOf w ∧
@@ -184,7 +184,7 @@ theorem mIteList_spec (rec : Int → Int → Int → MM Int) (hrec : IteSound re
                 rw [hw4 a ((R.ext.valid a).mp ha), denM_ext R.ext hW g a mg, denM_ext R.ext hW u a mu,
                   denM_ext R.ext hW v a mv]
 
-theorem iteKey_inj {g u v g' u' v' : Int} (h : iteKey g u v = iteKey g' u' v') :
+theorem mIteKey_inj {g u v g' u' v' : Int} (h : iteKey g u v = iteKey g' u' v') :
     g = g' ∧ u = u' ∧ v = v' := by
   simpa [iteKey] using h
 
@@ -315,7 +315,7 @@ theorem mIteF_sound : ∀ f, IteSound (mIteF f) := by
                     have hc' : (m2.cache.insert (iteKey g u v) w1)[iteKey g' u' v']? = some w' := hc
                     rw [TreeMap.getElem?_insert] at hc'
                     by_cases hk : iteKey g u v = iteKey g' u' v'
-                    · obtain ⟨rfl, rfl, rfl⟩ := iteKey_inj hk
+                    · obtain ⟨rfl, rfl, rfl⟩ := mIteKey_inj hk
                       simp only [(listInt_compare_eq _ _).mpr rfl, if_true, Option.some.injEq] at hc'
                       subst hc'
                       exact hC
